@@ -101,6 +101,21 @@ CHECKS = {
              "source is started once with the model's coerced arguments. PARTIAL: aclose/cancellation are runtime.",
         note="Trusted: as C01; the async-generator protocol is outside the model.",
         design="4 C14"),
+    "C18": dict(
+        technique="Coq theorems on the total model of Engine.execute (parser as oracle) + envelope predicate on arbitrary "
+                  "inputs through the real engine",
+        text="engine_execute is a total Gallina function into `envelope` (nothing can escape: the catch-all of "
+             "Engine.execute is its last branch). Proved for every parser verdict, operation name, variables, user code "
+             "and total error coercer: `errors` present iff non-empty; errors = map coercer (errors awaited), i.e. the "
+             "coercer is awaited exactly once per reported error, in order, and its return value is what appears; "
+             "parse failures, failed operation selection and refused variables give data:null and run nothing. The "
+             "check feeds arbitrary text/bytes (random, mutated valid documents, deep nesting, unicode, NUL, lone "
+             "surrogates), operation-name variants, variables of any JSON shape and a recording coercer to the real "
+             "engine and judges each observation with the envelope predicate (never raises; data present; errors "
+             "well-formed; locations positive and inside the text; extensions only when set; coercer called once per "
+             "error); parsing+valid requests are also compared with the execution model inside Coq.",
+        note="Trusted: parser stand-in (which texts are syntax errors, reported locations), Coq kernel, harness.",
+        design="4 C18"),
 }
 
 NOT_YET = {
